@@ -268,6 +268,28 @@ End Traj.
 Arguments cstate : clear implicits.
 Arguments top : clear implicits.
 
+(* ================= further pure methods of the two classes =================
+   sensors_ids (both classes), RecordsBase.data_list(), Trajectories.inverse().  None of them touches the
+   cache of the container it is called on; inverse() builds a NEW Trajectories through the public
+   pair assignment:   inv = Trajectories();  for t, d in self.key_pairs(): inv[t, d] = self[t, d].inverse() *)
+Section TrajX.
+  Context {D P : Type} `{EqDec D} `{EqDec P}.
+  Variable interp : Z -> Z -> P -> Z -> P -> P.
+  Variable nd : Z -> Z.
+  Variable maxsize : Z.
+  Variable pinv : P -> P.                          (* PoseTransform.inverse *)
+
+  (* sensors_ids: a Python set (compared as a set) of the devices of every inner dict *)
+  Definition sensors_of (x : nested D P) : list D := dedup (map (fun e => snd (fst e)) (flatten x)).
+  (* data_list(): the stored values, one per (timestamp, device) entry (compared as a multiset) *)
+  Definition data_list_of (x : nested D P) : list P := map snd (flatten x).
+
+  Definition inverse_ops (x : nested D P) : list (top D P) :=
+    map (fun e => M (SetPair (fst (fst e)) (snd (fst e)) (pinv (snd e)))) (flatten x).
+  Definition inverse_c (c : cstate D P) : cstate D P :=
+    snd (t_run interp nd (init maxsize) (inverse_ops (data c))).
+End TrajX.
+
 (* ================= correspondence instance =================
    Devices are Python str; a payload is identified by a small integer (the harness keeps the real
    PoseTransform / record object for each id).  An interpolated pose is identified by the bracket it
@@ -295,43 +317,57 @@ Qed.
 Definition pid (p : spose) : Z := match p with PId i => i | PMix _ _ _ _ _ => -1 end.
 Definition interp_sym (t lo : Z) (pl : spose) (hi : Z) (ph : spose) : spose := PMix t lo (pid pl) hi (pid ph).
 
+(* the inverse of the pose with id i is identified by i + inv_offset (the harness recognises it by value:
+   PoseTransform.inverse() of the stored object, recomputed); interpolated poses are never stored *)
+Definition inv_offset : Z := 1000000.
+Definition inv_sym (p : spose) : spose := match p with PId i => PId (i + inv_offset) | _ => p end.
+
 (* monomorphic abbreviations used by the generated shards (cheap to parse and type-check) *)
 Definition sop := top string spose.
 Definition sout := out string spose.
+(* operations / answers of a run: the operations of the two machines, plus inverse() (the run goes on
+   with the returned container), sensors_ids and data_list() *)
+Inductive xop := XO (o : sop) | XInv | XSens | XData.
+Inductive xout := YO (o : sout) | YSens (l : list string) | YData (l : list Z).
 Definition tag_ids {A} (l : list (A * Z)) : list (A * spose) := map (fun e => (fst e, PId (snd e))) l.
-Definition SP (t : Z) (d : string) (i : Z) : sop := M (SetPair t d (PId i)).
-Definition ST (t : Z) (l : list (string * Z)) : sop := M (SetTs t (tag_ids l)).
-Definition DP (t : Z) (d : string) : sop := M (DelPair t d).
-Definition DT (t : Z) : sop := M (DelTs t).
-Definition HT (t : Z) : sop := M (HasTs t).
-Definition HP (t : Z) (d : string) : sop := M (HasPair t d).
-Definition GP (t : Z) (d : string) : sop := M (GetPair t d).
-Definition GT (t : Z) : sop := M (GetTs t).
-Definition PR : sop := M Pairs.
-Definition LN : sop := M Len.
-Definition BD : sop := M Bad.
-Definition SO : sop := Sorted.
-Definition TL : sop := TsLen.
-Definition IP (t : Z) (d : string) (mi : Z) : sop := Interp t d mi.
-Definition ON : sout := ONone.
-Definition OB (b : bool) : sout := OBool b.
-Definition OV (i : Z) : sout := OVal (PId i).
-Definition OM (t lo ilo hi ihi : Z) : sout := OVal (PMix t lo ilo hi ihi).
-Definition OD (l : list (string * Z)) : sout := ODict (tag_ids l).
-Definition OP (l : list (Z * string * Z)) : sout := OPairs (tag_ids l).
-Definition OI (z : Z) : sout := OInt z.
-Definition OL (l : list Z) : sout := OList l.
-Definition EK : sout := OKeyErr.
-Definition ET : sout := OTypeErr.
-Definition EI : sout := OIndexErr.
-Definition EO : sout := OOtherErr.
+Definition SP (t : Z) (d : string) (i : Z) : xop := XO (M (SetPair t d (PId i))).
+Definition ST (t : Z) (l : list (string * Z)) : xop := XO (M (SetTs t (tag_ids l))).
+Definition DP (t : Z) (d : string) : xop := XO (M (DelPair t d)).
+Definition DT (t : Z) : xop := XO (M (DelTs t)).
+Definition HT (t : Z) : xop := XO (M (HasTs t)).
+Definition HP (t : Z) (d : string) : xop := XO (M (HasPair t d)).
+Definition GP (t : Z) (d : string) : xop := XO (M (GetPair t d)).
+Definition GT (t : Z) : xop := XO (M (GetTs t)).
+Definition PR : xop := XO (M Pairs).
+Definition LN : xop := XO (M Len).
+Definition BD : xop := XO (M Bad).
+Definition SO : xop := XO Sorted.
+Definition TL : xop := XO TsLen.
+Definition IP (t : Z) (d : string) (mi : Z) : xop := XO (Interp t d mi).
+Definition IV : xop := XInv.
+Definition SI : xop := XSens.
+Definition DL : xop := XData.
+Definition ON : xout := YO ONone.
+Definition OB (b : bool) : xout := YO (OBool b).
+Definition OV (i : Z) : xout := YO (OVal (PId i)).
+Definition OM (t lo ilo hi ihi : Z) : xout := YO (OVal (PMix t lo ilo hi ihi)).
+Definition OD (l : list (string * Z)) : xout := YO (ODict (tag_ids l)).
+Definition OP (l : list (Z * string * Z)) : xout := YO (OPairs (tag_ids l)).
+Definition OI (z : Z) : xout := YO (OInt z).
+Definition OL (l : list Z) : xout := YO (OList l).
+Definition OS (l : list string) : xout := YSens l.
+Definition OZ (l : list Z) : xout := YData l.
+Definition EK : xout := YO OKeyErr.
+Definition ET : xout := YO OTypeErr.
+Definition EI : xout := YO OIndexErr.
+Definition EO : xout := YO OOtherErr.
 
 (* one run = a fresh container, a list of operations, and what the implementation answered to each *)
 Inductive ckind := KTraj | KRec.
 Record run := {
   r_kind : ckind;
-  r_ops : list sop;
-  r_outs : list sout
+  r_ops : list xop;
+  r_outs : list xout
 }.
 Record case := {
   c_maxsize : Z;                 (* sys.maxsize of the interpreter (initial _last_timestamp) *)
@@ -339,17 +375,53 @@ Record case := {
   c_digits : list (Z * Z)        (* (n, computation.num_digits(n)) as observed *)
 }.
 
-Definition mops_of (ops : list sop) : option (list (mop string spose)) :=
-  fold_right (fun o acc => match o, acc with M mo, Some l => Some (mo :: l) | _, _ => None end) (Some []) ops.
+Definition xout_eqb (a b : xout) : bool :=
+  match a, b with
+  | YO o1, YO o2 => out_eqb o1 o2
+  | YSens l, YSens k => seteq_b l k
+  | YData l, YData k => Eqb.eqb (zsort l) (zsort k)
+  | _, _ => false
+  end.
+Fixpoint xouts_eqb (l m : list xout) : bool :=
+  match l, m with
+  | [], [] => true
+  | a :: l', b :: m' => xout_eqb a b && xouts_eqb l' m'
+  | _, _ => false
+  end.
+
+(* Trajectories: no data_list method (AttributeError) *)
+Definition xt_step (maxsize : Z) (c : cstate string spose) (o : xop) : xout * cstate string spose :=
+  match o with
+  | XO o' => let '(r, c') := t_step interp_sym nd_float c o' in (YO r, c')
+  | XInv => (YO ONone, inverse_c interp_sym nd_float maxsize inv_sym c)
+  | XSens => (YSens (sensors_of (data c)), c)
+  | XData => (YO OOtherErr, c)
+  end.
+Fixpoint xt_run (maxsize : Z) (c : cstate string spose) (ops : list xop) : list xout :=
+  match ops with
+  | [] => []
+  | o :: r => let '(y, c') := xt_step maxsize c o in y :: xt_run maxsize c' r
+  end.
+
+(* Records: only the map operations; no inverse, no cache *)
+Definition xr_step (x : nested string spose) (o : xop) : xout * nested string spose :=
+  match o with
+  | XO (M mo) => let '(r, x') := m_step x mo in (YO r, x')
+  | XO _ => (YO OOtherErr, x)
+  | XInv => (YO OOtherErr, x)
+  | XSens => (YSens (sensors_of x), x)
+  | XData => (YData (map pid (data_list_of x)), x)
+  end.
+Fixpoint xr_run (x : nested string spose) (ops : list xop) : list xout :=
+  match ops with
+  | [] => []
+  | o :: r => let '(y, x') := xr_step x o in y :: xr_run x' r
+  end.
 
 Definition check_run (maxsize : Z) (r : run) : bool :=
   match r_kind r with
-  | KTraj => outs_eqb (fst (t_run interp_sym nd_float (init maxsize) (r_ops r))) (r_outs r)
-  | KRec =>
-      match mops_of (r_ops r) with
-      | Some ops => outs_eqb (fst (m_run [] ops)) (r_outs r)
-      | None => false
-      end
+  | KTraj => xouts_eqb (xt_run maxsize (init maxsize) (r_ops r)) (r_outs r)
+  | KRec => xouts_eqb (xr_run [] (r_ops r)) (r_outs r)
   end.
 
 Definition check_case (c : case) : bool :=
